@@ -463,6 +463,10 @@ func ResponseCorpus(dir string) []CorpusEntry {
       responses:
         '200': {description: raw, content: {application/octet-stream: {schema: {type: string, format: binary}}}}
         default: {description: other}
+  /names:
+    get:
+      responses:
+        '200': {description: a list declared in place, content: {application/json: {schema: {type: array, items: {type: string}}}}}
 components:
   schemas:
     Pet: {type: object, required: [name], properties: {name: {type: string}, tag: {type: string}}}
@@ -507,6 +511,19 @@ components:
     Err2: {description: err, content: {application/json: {schema: {$ref: '#/components/schemas/E'}}}}
 `), Group: "response-matrix", Client: true},
 	}
+}
+
+// FindingsCorpus: witness specs of recorded (not repaired) findings, under
+// /verif/corpus/findings; used only by the checks whose known_findings entries
+// name them.
+func FindingsCorpus(verifDir string) []CorpusEntry {
+	var out []CorpusEntry
+	files, _ := filepath.Glob(filepath.Join(verifDir, "corpus", "findings", "*.yaml"))
+	sort.Strings(files)
+	for _, f := range files {
+		out = append(out, CorpusEntry{Name: "finding-" + strings.TrimSuffix(filepath.Base(f), ".yaml"), Spec: f, Client: true, Group: "findings"})
+	}
+	return out
 }
 
 // JSONCorpus: schema shapes of the JSON dialect (DESIGN §0.7): static specs
